@@ -36,7 +36,7 @@ func init() {
 	register(&Property{
 		Meta: report.Meta{
 			Property:    "C04",
-			Explanation: "Decision tables read off the CFG of both IsValidAt methods (every combination of bound present/absent and probe before/after), of verifyTimeBoundAt (invocation and every delegation of a full-range loop must be valid at the probe instant), of verifyTimeBound / IsValidNow (probe = time.Now()), and of parse.OptionalTimestamp (nil -> nil; value = time.Unix(sec,0); int53 bounds). Field/method pairing (expiration<->After, notBefore<->Before) and receiver/argument roles are part of the atoms. (R5) every exported option constructor: the function it returns, enumerated in the context of its creator, stores into *time.Time fields only cells allocated during the application, cells of the creator that no application writes (idempotent time.Round / Truncate / UTC of the cell's own value excepted), nil, or the caller's pointer. When the returned function ends in the application of another exported time option to the token, the single argument of that option must satisfy the same condition on the instant.",
+			Explanation: "Decision tables read off the CFG of both IsValidAt methods (every combination of bound present/absent and probe before/after), of verifyTimeBoundAt (invocation and every delegation of a full-range loop must be valid at the probe instant), of verifyTimeBound / IsValidNow (probe = time.Now()), and of parse.OptionalTimestamp (nil -> nil; value = time.Unix(sec,0); int53 bounds). Field/method pairing (expiration<->After, notBefore<->Before) and receiver/argument roles are part of the atoms. (R5) every exported option constructor: the function it returns, enumerated in the context of its creator, stores into *time.Time fields only cells allocated during the application, cells of the creator that no application writes (idempotent time.Round / Truncate / UTC of the cell's own value excepted), nil, or the caller's pointer. When the returned function ends in the application of another exported time option to the token, the single argument of that option must satisfy the same condition on the instant. (R3) on every path of executionAllowed the first call of time.Now comes after the call of loadProofs.",
 			Assumptions: []string{"time.Time.After/Before/Unix semantics", "go/ssa faithfully represents the source"},
 			Trusted:     []string{"golang.org/x/tools/go/ssa v0.29.0", "package time"},
 			NotDecided:  []string{"behaviour exactly at a bound (left open by the property)", "time package semantics"},
@@ -545,6 +545,23 @@ func runC04(x *Ctx) {
 		// authorization path is time.Now(), and the delegations are the ones loadProofs returned
 		n, ok, detail := 0, true, ""
 		for _, p := range x.pathsQuiet(f) {
+			// the instant is taken once the delegations are there: a clock read before the (possibly slow) loader runs
+			// judges the bounds at an instant that is already past when the verdict is given
+			iNow, iLoad := -1, -1
+			for i, c := range p.Calls() {
+				if ct := p.Term(c); ct != nil && ct.Op == "call" {
+					if ct.Name == "time.Now" && iNow < 0 {
+						iNow = i
+					}
+					if ct.Name == invTok+"loadProofs" {
+						iLoad = i
+					}
+				}
+			}
+			if iNow >= 0 && iLoad >= 0 && iNow < iLoad {
+				ok = false
+				detail += "the clock is read before loadProofs calls the loader\n"
+			}
 			for _, c := range p.Calls() {
 				ct := p.Term(c)
 				if ct.Op != "call" || ct.Name != invTok+"verifyTimeBoundAt" || len(ct.Args) != 3 {
